@@ -220,4 +220,38 @@ theorem optimize_refines (M : Machine) (obj : HostVal) (hnd : NeverDone M)
   rw [e0, eT] at h
   exact h
 
+/-- **… and the optimizer cannot make a script end that did not**: every run of the optimised machine that
+    ends is matched by a run of the original machine with the same result, output and variables. -/
+theorem optimize_refinedBy (M : Machine) (obj : HostVal) (hnd : NeverDone M)
+    (hmain : (fullTrace M.main).isSome = true)
+    (hfuncs : ∀ u, u ∈ M.funcs → (fullTrace u.code).isSome = true) :
+    RefinedBy M (optMachine M) obj := by
+  let T := ((M.main :: M.funcs.map (·.code)).map traceLen).foldr max 0
+  have hS : ∀ b, (b = M.main ∨ ∃ u, u ∈ M.funcs ∧ u.code = b) → ∀ t, Step1 (stageFn b t) (stageFn b (t + 1)) := by
+    intro b hb t
+    rcases hb with rfl | ⟨u, hu, rfl⟩
+    · exact stageFn_step _ hmain t
+    · exact stageFn_step _ (hfuncs u hu) t
+  have h := atStage_refinedBy M obj stageFn hnd hS T
+  have e0 : atStage M stageFn 0 = M := by
+    unfold atStage
+    simp only [stageFn_zero]
+    cases M; simp
+  have eT : atStage M stageFn (T + 1) = optMachine M := by
+    unfold atStage optMachine
+    have h1 : stageFn M.main (T + 1) = Optimizer.optimize M.main :=
+      stageFn_last _ hmain _ (Nat.le_succ_of_le (le_foldr_max (by simp)))
+    rw [h1]
+    congr 1
+    apply List.map_congr_left
+    intro u hu
+    have : stageFn u.code (T + 1) = Optimizer.optimize u.code :=
+      stageFn_last _ (hfuncs u hu) _ (Nat.le_succ_of_le (le_foldr_max (by
+        simp only [List.map_cons, List.map_map, List.mem_cons, List.mem_map, Function.comp]
+        exact Or.inr ⟨u, hu, rfl⟩)))
+    rw [this]
+  rw [e0, eT] at h
+  exact h
+
+
 end EvalFilter.OptSim
